@@ -175,7 +175,9 @@ func (state *State) NewSocket(src, dst net.Addr) *Socket {
 		laddr: dst,
 		raddr: src,
 
-		rchan: make(chan interface{}),
+		// holds one notification: flush never blocks, and a reader that has not started
+		// to wait yet must still find it
+		rchan: make(chan interface{}, 1),
 
 		// rbuffer: rbuf.NewFixedSizeRingBuf(65535),
 		// wbuffer: rbuf.NewFixedSizeRingBuf(65535),
